@@ -256,7 +256,10 @@ def _fs_entry(lab):
         return FileSystemEntry("dir_a", is_dir=True)
     if lab == "b":  # falsy attribute values that are real values: an empty file dated at the epoch
         return FileSystemEntry("b.txt", size=0, mdate=0.0)
-    return FileSystemEntry(("ü_" if lab == "c" else "") + lab + ".txt", size=100 * _size_of(lab), mdate=1700000000.25 + _size_of(lab))
+    # modification times as st_mtime delivers them on file systems with nanosecond stamps (digits behind the microsecond),
+    # before the epoch, and far in the future: a float has to come back bit for bit
+    md = (1700000000.1234567, -86400.000000123, 4102444800.9999999)[_size_of(lab) % 3] + _size_of(lab)
+    return FileSystemEntry(("ü_" if lab == "c" else "") + lab + ".txt", size=100 * _size_of(lab), mdate=md)
 
 
 mk_fs = _memo(_fs_entry)
